@@ -285,7 +285,7 @@ def byte_contracts():
         returns=rb_returns,
         ensures=[("consumes-exactly-n", lambda c: pos1(c) == pos0(c) + n_of(c)),
                  ("returns-only-if-enough-bytes", lambda c: z3.Or(n_of(c) == 0, pos0(c) + n_of(c) <= SLEN(stream_of(c).t)))],
-        raises=[Raises(BAD, when=lambda c: pos0(c) + n_of(c) > SLEN(stream_of(c).t), label="short stream")],
+        raises=[Raises(BAD, when=lambda c: z3.And(n_of(c) > 0, pos0(c) + n_of(c) > SLEN(stream_of(c).t)), label="short stream")],
         note="the n bytes at the stream position, or Bad7zFile when fewer remain"))
     out.append(reader_contract("_read_uint8", 1, lambda s, p: le(s, p, 1), 8))
     out.append(reader_contract("_read_uint32", 4, lambda s, p: le(s, p, 4), 32))
@@ -402,10 +402,9 @@ def byte_contracts():
         requires=lambda c: z3.And(req_stream(c), bv_n(c) >= 0), frame=frame_stream, returns=bv_returns,
         ensures=[("consumes-exactly-the-vector", lambda c: pos1(c) == pos0(c) + bv_need(c)),
                  ("returns-only-if-enough-bytes", lambda c: z3.Not(bv_short(c))),
-                 ("bit-loop-runs-to-completion-unless-all-defined", internal(lambda c: z3.Or(
-                     bv_all(c), z3.BoolVal(bool(c.st.ghost.get(("done", "bit-i-is-bit-7-minus-i-mod-8-of-byte-i-div-8")))))))],
+                 ],
         raises=[Raises(BAD, when=bv_short, label="short stream")],
-        loops=role(is_seq("int"), "bit-i-is-bit-7-minus-i-mod-8-of-byte-i-div-8", bv_inv, havoc=(bv_havoc,)),
+        loops=role(both(is_seq("int"), body_calls("_read_uint8", "_read_bytes")), "bit-i-is-bit-7-minus-i-mod-8-of-byte-i-div-8", bv_inv, havoc=(bv_havoc,)),
         note="7z BitVector (optionally preceded by the allAreDefined byte): MSB-first bits; any count"))
     out.append(FnContract(
         target=f"{RD}._seek_back_one", params=[("self", p_reader())],
@@ -663,21 +662,23 @@ class C10Executor(Executor):
                     def at(j, s2=s2, it=it):
                         s3 = s2.fork()
                         s3.frames.append(Frame({}, len(s3.frames) - 1, s3.frame.fnode))
-                        mark = len(self.sinks[-1])
-                        sts = self.assign(g.target, it.elem(j), s3)
-                        conds = []
-                        if len(sts) != 1:
-                            self.unsupported(n, "generator expression: forking target")
-                        cur = sts[0]
-                        for c_ in g.ifs:
-                            r = self.ev(c_, cur)
-                            if len(r) != 1:
-                                self.unsupported(n, "generator expression: forking condition")
-                            cur = r[0][0]
-                            conds.append(self.truth(cur, r[0][1]).t)
-                        r = self.ev(n.elt, cur)
-                        if len(r) != 1 or len(self.sinks[-1]) != mark:
-                            del self.sinks[-1][mark:]
+                        self.sinks.append([])
+                        try:
+                            sts = self.assign(g.target, it.elem(j), s3)
+                            conds = []
+                            if len(sts) != 1:
+                                self.unsupported(n, "generator expression: forking target")
+                            cur = sts[0]
+                            for c_ in g.ifs:
+                                r = self.ev(c_, cur)
+                                if len(r) != 1:
+                                    self.unsupported(n, "generator expression: forking condition")
+                                cur = r[0][0]
+                                conds.append(self.truth(cur, r[0][1]).t)
+                            r = self.ev(n.elt, cur)
+                        finally:
+                            raised = self.sinks.pop()
+                        if len(r) != 1 or any(self.feasible(es.pc) for (es, _e) in raised):
                             self.unsupported(n, "generator expression: forking / raising element")
                         return z3.And(conds + [z3.BoolVal(True)]), r[0][1]
                     out.append((s2, VSeq(it.length, lambda j, at=at: at(j)[1], "genexp", tag=("genexp", at))))
@@ -703,6 +704,38 @@ class C10Executor(Executor):
             return [(st, self._quantify(st, v, True))]
         return super().b_all(st, args, kwargs, node)
 
+    def _pure_map_comp(self, n, st):
+        """[E(t) for t in IT] over a symbolic IT where E has no effect and cannot raise (checked at a generic index): the
+        sequence j -> E(IT[j])"""
+        from pyvc.state import Frame
+        g = n.generators[0]
+        r0 = self.ev(g.iter, st)
+        if len(r0) != 1:
+            return None
+        s2, it = r0[0]
+
+        def at(j, probe=False):
+            s3 = s2.fork()
+            if probe:
+                s3.assume(z3.And(j >= 0, j < it.length))
+            s3.frames.append(Frame({}, len(s3.frames) - 1, s3.frame.fnode))
+            self.sinks.append([])          # own sink: the element is also evaluated lazily, after the function body
+            try:
+                sts = self.assign(g.target, it.elem(j), s3)
+                res = self.ev(n.elt, sts[0]) if len(sts) == 1 else []
+            finally:
+                raised = self.sinks.pop()
+            return res, raised, s3
+        j0 = z3.Int(fresh_name("j!map"))
+        res, raised, s3 = at(j0, probe=True)
+        if len(res) != 1 or any(self.feasible(es.pc) for (es, _e) in raised):
+            return None
+        after = res[0][0]
+        if after.ghost != s3.ghost or after.heap.keys() != s2.heap.keys() or any(after.heap[k] is not s2.heap[k] for k in s2.heap):
+            return None            # the element expression has an effect: not a map
+        kind = res[0][1].kind
+        return [(s2, VSeq(it.length, lambda j: at(j)[0][0][1], kind))]
+
     def _comp_as_loop(self, n, st):
         """[E for t in IT if C] over a SYMBOLIC IT for which the contract has a loop role is executed as the loop it abbreviates:
         tmp = []; for t in IT: if C: tmp.append(E)   (so selection written as a comprehension meets the same invariant)"""
@@ -724,7 +757,8 @@ class C10Executor(Executor):
         ast.copy_location(loop, n)
         ast.fix_missing_locations(loop)
         if not any(isinstance(k, tuple) and k[0] == "role" and sp.match(self, st, probe[0][1], loop) for k, sp in self.contract.loops.items()):
-            return super().e_ListComp(n, st)
+            r = self._pure_map_comp(n, st) if not g.ifs else None
+            return r if r is not None else super().e_ListComp(n, st)
         out = []
         for (s2, it) in self.ev(g.iter, st):
             s2.frames.append(Frame({tmp: self.new_list(s2, []), itn: it}, len(s2.frames) - 1, s2.frame.fnode))
@@ -2898,7 +2932,12 @@ def guarded(fn, what):
     return g
 
 
+FUNCTIONAL = ("._read_bytes", "._read_uint8", "._read_uint32", "._read_uint64", "._read_number", "._read_boolean_vector",
+              "._decompress_folder", "._parse_pack_info", "._seek_back_one")
+
+
 def guard_contract(c):
+    c.functional = c.target.endswith(FUNCTIONAL)
     orig_hyps = c.hyps
 
     def hyps(cx):
@@ -2949,6 +2988,9 @@ def _missing_locked_as_unknown(c, rep):
     prefix = f"C10/{rel.split('/')[-1]}::{qual}/"
     have = {o["id"] for o in rep.obligations}
     for oid in sorted(lock):
+        aux = oid[len(prefix):].split("#")[0] in ("inv-init", "inv-preserve", "unwind")
+        if aux and getattr(c, "functional", False):
+            continue        # the contract fixes the whole result (returns / grammar clause): how the code loops is not part of it
         if oid.startswith(prefix) and oid not in have and "/call-pre#" not in oid and not oid.endswith(".BOUNDED"):
             rep.obligations.append({"id": oid, "kind": oid[len(prefix):].split("#")[0], "status": "unknown", "vcs": 0, "seconds": 0.0, "backends": {},
                                     "witness": None, "reason": "locked obligation not generated from the changed code (loop role / statement not recognised)", "loc": ""})
